@@ -73,3 +73,139 @@ cp_step = Lemma('cp_step', ['v', 'b', 'e', 'b0', 'e0'], And(K(1) <= v, K(1) <= b
                     'otherwise value*base does not wrap; if base*base does not fit, the answer is value1 when exp/2 == 0 and "cannot fit" is right otherwise; else the invariant is re-established')
 CHECKED_POW = [cp_init, cp_step, cp_exit]
 CHECKED_POW_PRELUDE = open(os.path.join(os.path.dirname(__file__), '..', '..', 'lemmas', 'checked_pow_core.lean')).read()
+
+# ---------------------------------------------------------------------------------------------------------------- checked_int_pow<intmax_t> (base >= 1)
+MAX63 = (1 << 63) - 1
+def _one_le(t): return sle(1, t, 64)
+cps_init = Lemma('cps_init', ['b0', 'e0'], TRUE, PApp('spoweq', 1, b0, e0, b0, e0),
+                 proof=r'''  unfold specp_spoweq
+  have s1 : sval 64 1 = 1 := by norm_num [sval]
+  rw [s1]; ring''', doc='1 * b0^e0 = b0^e0 (two\'s-complement reading)')
+cps_exit = Lemma('cps_exit', ['v', 'b', 'b0', 'e0'], PApp('spoweq', v, b, 0, b0, e0),
+                 And(PApp('spowfits', b0, e0), eq(App('spow', b0, e0), v)),
+                 proof=r'''  unfold specp_spoweq at hyp
+  rw [pow_zero, Int.mul_one] at hyp
+  unfold specp_spowfits spec_spow
+  rw [← hyp]
+  have hr := sval_range v hW_v
+  refine ⟨hr.2, ?_⟩
+  rw [enc_sval v hW_v]
+  exact Nat.mod_eq_of_lt hW_v''', doc='exit: v * b^0 = b0^e0 means b0^e0 = v, which fits')
+_sodd = eq(urem(e, 2), 1); _serr1 = And(_sodd, slt(sdiv(K(MAX63), v, 64), b, 64))
+_sv1 = Ite(_sodd, smul(v, b), v); _se1 = udiv(e, 2); _sbig = slt(sdiv(K(MAX63), b, 64), b, 64); _sbb = smul(b, b)
+cps_step = Lemma('cps_step', ['v', 'b', 'e', 'b0', 'e0'], And(_one_le(v), _one_le(b), K(0) < e, PApp('spoweq', v, b, e, b0, e0)),
+                 And(Imp(_serr1, Not(PApp('spowfits', b0, e0))),
+                     Imp(Not(_serr1), And(Imp(_sodd, Not(smulovf(v, b))), _one_le(_sv1),
+                                          Imp(And(_sbig, eq(_se1, 0)), And(PApp('spowfits', b0, e0), eq(App('spow', b0, e0), _sv1))),
+                                          Imp(And(_sbig, ne(_se1, 0)), Not(PApp('spowfits', b0, e0))),
+                                          Imp(Not(_sbig), And(Not(smulovf(b, b)), _one_le(_sbb), PApp('spoweq', _sv1, _sbb, _se1, b0, e0)))))),
+                 proof=r'''  obtain ⟨hv, hb, he, hpe⟩ := hyp
+  have s1 : sval 64 1 = 1 := by norm_num [sval]
+  have smax : sval 64 9223372036854775807 = 9223372036854775807 := by norm_num [sval]
+  rw [s1] at hv hb
+  simp only [s1, smax]
+  unfold specp_spoweq at hpe
+  unfold specp_spowfits specp_spoweq spec_spow
+  have hVr := sval_range v hW_v
+  have hBr := sval_range b hW_b
+  have d1lo : (0 : Int) ≤ Int.tdiv 9223372036854775807 (sval 64 v) := Int.tdiv_nonneg (by norm_num) (by omega)
+  have d1hi : Int.tdiv 9223372036854775807 (sval 64 v) ≤ 9223372036854775807 := by
+    rw [Int.tdiv_eq_ediv_of_nonneg (by norm_num)]; exact Int.ediv_le_self _ (by norm_num)
+  have d2lo : (0 : Int) ≤ Int.tdiv 9223372036854775807 (sval 64 b) := Int.tdiv_nonneg (by norm_num) (by omega)
+  have d2hi : Int.tdiv 9223372036854775807 (sval 64 b) ≤ 9223372036854775807 := by
+    rw [Int.tdiv_eq_ediv_of_nonneg (by norm_num)]; exact Int.ediv_le_self _ (by norm_num)
+  have e1 : sval 64 (enc 64 (Int.tdiv 9223372036854775807 (sval 64 v))) = Int.tdiv 9223372036854775807 (sval 64 v) :=
+    sval_enc 64 (by norm_num) _ (by norm_num; omega) (by norm_num; omega)
+  have e2 : sval 64 (enc 64 (Int.tdiv 9223372036854775807 (sval 64 b))) = Int.tdiv 9223372036854775807 (sval 64 b) :=
+    sval_enc 64 (by norm_num) _ (by norm_num; omega) (by norm_num; omega)
+  simp only [e1, e2]
+  have g1 := iguard_iff (sval 64 v) (sval 64 b) hv
+  have g2 := iguard_iff (sval 64 b) (sval 64 b) hb
+  rw [g1, g2]
+  have hsplit := ipow_split (sval 64 b) e
+  refine ⟨?_, ?_⟩
+  · rintro ⟨hodd, hbig⟩
+    have := icp_err1_core (sval 64 v) (sval 64 b) _ e hv hb hpe hodd hbig
+    omega
+  · intro hne
+    rcases Nat.mod_two_eq_zero_or_one e with hev | hodd
+    · have hif : (if e % 2 = 1 then enc 64 (sval 64 v * sval 64 b) else v) = v := by simp [hev]
+      simp only [hif]
+      have hP : sval 64 v * (sval 64 b * sval 64 b) ^ (e / 2) = sval 64 b0 ^ e0 := by rw [← hpe, hsplit, hev]; simp
+      have hk : 0 < e / 2 := by omega
+      refine ⟨by intro h; omega, hv, ?_, ?_, ?_⟩
+      · rintro ⟨_, h0⟩; omega
+      · rintro ⟨hbig, _⟩
+        have := icp_big_core (sval 64 v) (sval 64 b) _ (e / 2) hv hb hP hk hbig
+        omega
+      · intro hnb
+        have hbb : sval 64 b * sval 64 b ≤ 9223372036854775807 := by omega
+        have hbb1 : 1 ≤ sval 64 b * sval 64 b := by nlinarith
+        have ebb : sval 64 (enc 64 (sval 64 b * sval 64 b)) = sval 64 b * sval 64 b :=
+          sval_enc 64 (by norm_num) _ (by norm_num; omega) (by norm_num; omega)
+        rw [ebb]
+        exact ⟨by omega, hbb1, hP⟩
+    · have hnb1 : ¬ 9223372036854775807 < sval 64 v * sval 64 b := fun h => hne ⟨hodd, h⟩
+      have hvb : sval 64 v * sval 64 b ≤ 9223372036854775807 := by omega
+      have hvb1 : 1 ≤ sval 64 v * sval 64 b := by nlinarith
+      have evb : sval 64 (enc 64 (sval 64 v * sval 64 b)) = sval 64 v * sval 64 b :=
+        sval_enc 64 (by norm_num) _ (by norm_num; omega) (by norm_num; omega)
+      have hif : (if e % 2 = 1 then enc 64 (sval 64 v * sval 64 b) else v) = enc 64 (sval 64 v * sval 64 b) := by simp [hodd]
+      simp only [hif, evb]
+      have hP : (sval 64 v * sval 64 b) * (sval 64 b * sval 64 b) ^ (e / 2) = sval 64 b0 ^ e0 := by rw [← hpe, hsplit, hodd]; ring
+      refine ⟨by intro _; omega, hvb1, ?_, ?_, ?_⟩
+      · rintro ⟨_, h0⟩
+        rw [h0, pow_zero, Int.mul_one] at hP
+        rw [← hP]
+        exact ⟨by omega, Nat.mod_eq_of_lt (enc_lt _)⟩
+      · rintro ⟨hbig, hk0⟩
+        have := icp_big_core (sval 64 v * sval 64 b) (sval 64 b) _ (e / 2) hvb1 hb hP (Nat.pos_of_ne_zero hk0) hbig
+        omega
+      · intro hnb
+        have hbb : sval 64 b * sval 64 b ≤ 9223372036854775807 := by omega
+        have hbb1 : 1 ≤ sval 64 b * sval 64 b := by nlinarith
+        have ebb : sval 64 (enc 64 (sval 64 b * sval 64 b)) = sval 64 b * sval 64 b :=
+          sval_enc 64 (by norm_num) _ (by norm_num; omega) (by norm_num; omega)
+        rw [ebb]
+        exact ⟨by omega, hbb1, hP⟩''',
+                 doc='checked_int_pow<intmax_t> loop body, two\'s-complement reading, from a state with value * base^exp = base0^exp0, value >= 1, base >= 1, exp > 0: same statement as cp_step with '
+                     'signed division, comparison and multiplication')
+CHECKED_POW_SIGNED = [cps_init, cps_step, cps_exit]
+CHECKED_POW_SIGNED_PRELUDE = open(os.path.join(os.path.dirname(__file__), '..', '..', 'lemmas', 'checked_pow_signed_core.lean')).read() + r'''
+theorem sval_range (x : Nat) (hx : x < W) : (-9223372036854775808 : Int) ≤ sval 64 x ∧ sval 64 x < 9223372036854775808 := by
+  unfold sval W at *
+  by_cases h : x < 2 ^ (64 - 1)
+  · simp only [h, if_true]
+    have h' : x < 9223372036854775808 := by norm_num at h; exact h
+    have : (x : Int) < 9223372036854775808 := by exact_mod_cast h'
+    omega
+  · simp only [h, if_false]
+    have h' : 9223372036854775808 ≤ x := by norm_num at h; exact h
+    have h1 : (9223372036854775808 : Int) ≤ (x : Int) := by exact_mod_cast h'
+    have h2 : (x : Int) < 18446744073709551616 := by exact_mod_cast hx
+    norm_num
+    omega
+
+theorem enc_lt (z : Int) : enc 64 z < W := by
+  unfold enc W
+  have h1 : 0 ≤ z % 2 ^ 64 := Int.emod_nonneg _ (by norm_num)
+  have h2 : z % 2 ^ 64 < 2 ^ 64 := Int.emod_lt_of_pos _ (by norm_num)
+  have : ((z % 2 ^ 64).toNat : Int) < 18446744073709551616 := by rw [Int.toNat_of_nonneg h1]; norm_num at h2 ⊢; exact h2
+  exact_mod_cast this
+
+theorem enc_sval (x : Nat) (hx : x < W) : enc 64 (sval 64 x) = x := by
+  unfold enc sval W at *
+  by_cases h : x < 2 ^ (64 - 1)
+  · simp only [h, if_true]
+    have h2 : (x : Int) < 18446744073709551616 := by exact_mod_cast hx
+    have : (x : Int) % 2 ^ 64 = (x : Int) := Int.emod_eq_of_lt (by omega) (by norm_num; omega)
+    rw [this]; simp
+  · simp only [h, if_false]
+    have h2 : (x : Int) < 18446744073709551616 := by exact_mod_cast hx
+    have h' : 9223372036854775808 ≤ x := by norm_num at h; exact h
+    have h1 : (9223372036854775808 : Int) ≤ (x : Int) := by exact_mod_cast h'
+    have : ((x : Int) - 2 ^ 64) % 2 ^ 64 = (x : Int) := by
+      have e := Int.sub_emod_right (x : Int) (2 ^ 64)
+      rw [e]; exact Int.emod_eq_of_lt (by omega) (by norm_num; omega)
+    rw [this]; simp
+'''
